@@ -64,6 +64,11 @@ def width_points(tier, rng):
     for r in (32767, 32768, 32769, 16384, 40000, 48990):
         for k in ((1, 3) if tier == "quick" else (1, 2, 3, 4, 7)):
             pts.append((k, r, 4, rng.randrange(1, 2 ** 31 - 1)))
+    # large codes at which the claim *is* made (dense enough that the completion step adds nothing, even N1)
+    for (k, r) in ((20000, 10000), (5000, 4000), (30000, 15000), (3500, 600)) if tier == "quick" else \
+                  ((20000, 10000), (5000, 4000), (30000, 15000), (3500, 600), (12000, 5000), (40000, 9000), (8000, 8000), (2500, 700), (45000, 4000)):
+        for n1 in (4, 6):
+            pts.append((k, r, n1, rng.randrange(1, 2 ** 31 - 1)))
     if tier != "quick":
         for _ in range(60):
             pts.append((rng.randint(1, 12), rng.randint(3200, 48000), rng.choice([4, 4, 6, 8, 3, 5]), rng.randrange(1, 2 ** 31 - 1)))
